@@ -6,6 +6,14 @@ V = os.path.dirname(os.path.dirname(os.path.abspath(__file__)))
 
 CHECKS = [
  # id, engine, level, text, note, technique, design_ref
+ ("C02", "seqx", "exploration",
+  "every constant expression tree of depth<=1 over 12 int/float atoms and {+,-,*,/,%,**} plus all depth-2 trees (left-, right-nested, unparenthesised) over a 7-atom (thorough 12-atom) set, in 13 syntactic positions (assignment, +=, both comparison sides, condition, index, int()/float()/string(), next to a capture on either side, parenthesised, settime); compiled with and without the optimiser, run on 3 lines, stores compared bit-exactly",
+  "deeper trees are not enumerated; the unoptimised compile is the reference (differential oracle), so a defect shared by both pipelines is invisible here (C01 covers it)",
+  "exhaustive bounded program enumeration with a differential oracle on the real compiler and VM", "§3 C02"),
+ ("C20", "gosim", "exploration",
+  "all schedules with at most 2 (thorough 3-4) deviations from the default schedule of {fan-out, VM run loops, line feeder, reloader(s)} on the instrumented real Runtime/VM/Store: every line counted once by the shared counter, by exactly one program version, gauge writes in arrival order",
+  "scheduling points are the synchronisation operations (mutex, rwmutex, waitgroup, atomics, channel ops, go) of metrics, datum, runtime and vm; code between two points runs atomically; deviation bound, not full interleaving coverage; a shutdown hang when a reload lands after end of input is observed but outside this property's statement",
+  "stateless model checking of the implementation under a controlled scheduler (iterative deviation bounding, DFS, replay-confirmed counterexamples)", "§3 C20"),
  ("C08", "seqx", "exploration",
   "all ordered pairs of label tuples (arity 1-2) over all strings up to length 2 (thorough 3) of {a,-,\\,0xFF}, and all tuples of arity 3-4 in one metric: create/find/write/expire/delete one tuple while observing the other, on the real Metric",
   "small-scope: longer label strings are not enumerated; the alphabet contains the separator and the escape character of the key encoding, which is what collisions are made of",
